@@ -397,6 +397,9 @@ func readerOracle(c *readerCase) string {
 			}
 			eof = true
 		}
+		if o.Err == "closed" && !closed {
+			return fmt.Sprintf("a Read reported a closed stream (after %d of %d bytes) although the handler had not closed it: the only terminal result of an unclosed reader is EOF", pos, len(payload))
+		}
 		if strings.HasPrefix(o.Err, "other:") {
 			return "unexpected read error " + o.Err
 		}
